@@ -16,7 +16,7 @@ Lemma pin_multivector_MultiVector___new__ : src_multivector_MultiVector___new__ 
         keys, values = zip(*((blade, items[blade]) for blade in algebra.canon2bin if blade in items))
         values = list(values)
     if keys is not None and (not all((isinstance(k, int) for k in keys))):
-        keys = tuple((k if k in algebra.bin2canon else algebra.canon2bin[k] for k in keys))
+        keys = tuple((int(k) if k in algebra.bin2canon else algebra.canon2bin[k] for k in keys))
     if grades is None and name and (keys is not None):
         grades = tuple(sorted({format(k, 'b').count('1') for k in keys}))
     values = values if values is not None else list()
@@ -46,7 +46,7 @@ Lemma pin_multivector_MultiVector___new__ : src_multivector_MultiVector___new__ 
     elif len(keys) != len(values):
         raise TypeError(f'Length of `keys` and `values` have to match.')
     if not all((isinstance(k, int) for k in keys)):
-        keys = tuple((key if key in algebra.bin2canon else algebra.canon2bin[key] for key in keys))
+        keys = tuple((int(key) if key in algebra.bin2canon else algebra.canon2bin[key] for key in keys))
     if any((isinstance(v, str) for v in values)):
         values = list((val if not isinstance(val, str) else sympify(val) for val in values))
     if not set(keys) <= set(algebra.indices_for_grades[grades]):
